@@ -25,6 +25,7 @@ pub fn record_afacts(ev: &mut Ev, f: &AFacts) {
     ev.add("per_diff_bound_checks", f.bound_checks);
     ev.add("nonempty_stage_views_checked", f.nonempty_views);
     ev.add("batch_state_matches", f.stage_state_matches);
+    ev.add("stages_that_stopped_before_their_input_was_pending_(judged_against_the_input_now)", f.early_stops);
     ev.add("streams_ended", f.ended as u64);
     for k in &f.kinds_in {
         ev.count(&format!("in_{k}"));
@@ -96,6 +97,21 @@ pub struct AGen {
     pub trav: bool,
     /// upper bound for the length of the initial vector
     pub init_max: usize,
+    /// never drain after every operation
+    pub lazy_only: bool,
+    /// now and then a run of 33..90 updates that all happen at one end of the vector, followed by one update
+    /// at the other end
+    pub far_runs: bool,
+}
+
+/// big channels, long stretches without a poll: dozens to hundreds of updates wait in the channel
+pub fn backlog(g: &AGen) -> AGen {
+    AGen { caps: &[33, 64, 100, 128, 256], min_ops: 80, max_ops: 300, poll_pct: 2, lazy_only: true, drop_pm: 2, close_pm: g.close_pm / 4, ..g.clone() }
+}
+
+/// the same over long sources with small views: most updates are far away from what the adapter shows
+pub fn backlog_far(g: &AGen) -> AGen {
+    AGen { maxlen: 120, init_max: 100, vmax: g.vmax.max(200), max_ops: 200, far_runs: true, ..backlog(g) }
 }
 
 pub fn gen_lim(rng: &mut Rng, kinds: &[Kind], pks: &[PK], maxn: usize) -> Stage {
@@ -123,7 +139,7 @@ pub fn gen_adp_history(rng: &mut Rng, chain: Vec<Stage>, batched: bool, g: &AGen
     let n_init = rng.below(g.init_max + 1);
     let init: Vec<u32> = (0..n_init).map(|_| rng.below(g.vmax as usize) as u32).collect();
     let mut model = init.clone();
-    let eager = rng.chance(1, 3);
+    let eager = !g.lazy_only && rng.chance(1, 3);
     let n_ops = rng.range(g.min_ops, g.max_ops);
     let dyn_stages: Vec<usize> = chain.iter().enumerate().filter(|(_, s)| s.dynamic()).map(|(i, _)| i + 1).collect();
     let mut ops = vec![];
@@ -147,6 +163,72 @@ pub fn gen_adp_history(rng: &mut Rng, chain: Vec<Stage>, batched: bool, g: &AGen
                 ops.push(AOp::Poll(rng.below(3)));
             }
             break;
+        }
+        if g.far_runs && rng.chance(1, 10) {
+            // a long run at one end (nothing a small view at the other end shows), then one update at the
+            // other end
+            let at_back = rng.chance(1, 2);
+            let in_txn = rng.chance(1, 6);
+            let mut run = vec![];
+            let mut w = model.clone();
+            for _ in 0..rng.range(33, 90) {
+                let len = w.len();
+                let v = rng.below(g.vmax as usize) as u32;
+                let far = |rng: &mut Rng, len: usize| if at_back { len - 1 - rng.below(len / 3 + 1) } else { rng.below(len / 3 + 1) };
+                let op = match rng.below(6) {
+                    0 | 1 if len < g.maxlen => {
+                        if at_back {
+                            VOp::PushBack(v)
+                        } else {
+                            VOp::PushFront(v)
+                        }
+                    }
+                    2 if len > 12 => {
+                        if at_back {
+                            VOp::PopBack
+                        } else {
+                            VOp::PopFront
+                        }
+                    }
+                    3 if len > 12 => VOp::Set(far(rng, len), v),
+                    4 if len > 12 => VOp::Remove(far(rng, len)),
+                    5 if len > 12 && len < g.maxlen => VOp::Insert(far(rng, len), v),
+                    _ => continue,
+                };
+                model_op(&mut w, &op);
+                run.push(op);
+            }
+            let len = w.len();
+            let v = rng.below(g.vmax as usize) as u32;
+            let near = match rng.below(3) {
+                0 if len > 0 => VOp::Set(if at_back { 0 } else { len - 1 }, v),
+                1 if len > 0 => {
+                    if at_back {
+                        VOp::PopFront
+                    } else {
+                        VOp::PopBack
+                    }
+                }
+                _ => {
+                    if at_back {
+                        VOp::PushFront(v)
+                    } else {
+                        VOp::PushBack(v)
+                    }
+                }
+            };
+            run.push(near);
+            if in_txn {
+                let t = VOp::Txn(run, TxEnd::Commit);
+                apply_model(&mut model, &t);
+                ops.push(AOp::Src(t));
+            } else {
+                for op in run {
+                    apply_model(&mut model, &op);
+                    ops.push(AOp::Src(op));
+                }
+            }
+            continue;
         }
         let vop = if rng.below(100) < g.txn_pct {
             gen_txn(rng, model.len(), g.vmax, false, g.trav, g.maxlen)
@@ -373,6 +455,8 @@ pub fn run_c09(p: &Params) -> Outcome {
         drop_pm: 8,
         trav: true,
         init_max: 6,
+        lazy_only: false,
+        far_runs: false,
     };
     out.merge(rand_adp(
         "C09",
@@ -389,6 +473,8 @@ pub fn run_c09(p: &Params) -> Outcome {
     // long histories on small vectors (accumulating state, repeated Resets, many limit changes)
     let glong = AGen { min_ops: 150, max_ops: 400, caps: &[1, 2, 3, 5, 8, 16], ..g.clone() };
     out.merge(rand_adp("C09", p, "c09-rand-long", p.n(1_200, 30_000), &glong, &|rng| (vec![gen_lim(rng, ALL_KINDS, BASIC_PKS, 8)], rng.chance(1, 2)), &nt));
+    out.merge(rand_adp("C09", p, "c09-rand-backlog", p.n(1_500, 40_000), &backlog(&g), &|rng| (vec![gen_lim(rng, ALL_KINDS, BASIC_PKS, 4)], rng.chance(1, 2)), &nt));
+    out.merge(rand_adp("C09", p, "c09-rand-backlog-far", p.n(1_500, 40_000), &backlog_far(&g), &|rng| (vec![gen_lim(rng, ALL_KINDS, BASIC_PKS, 4)], rng.chance(1, 2)), &nt));
     out
 }
 
@@ -433,6 +519,8 @@ pub fn run_c10(p: &Params) -> Outcome {
         drop_pm: 8,
         trav: true,
         init_max: 6,
+        lazy_only: false,
+        far_runs: false,
     };
     out.merge(rand_adp(
         "C10",
@@ -456,6 +544,10 @@ pub fn run_c10(p: &Params) -> Outcome {
     let glong = AGen { min_ops: 150, max_ops: 400, caps: &[1, 2, 3, 5, 8, 16], ..g.clone() };
     out.merge(rand_adp("C10", p, "c10-rand-long", p.n(1_200, 30_000), &glong, &|rng| {
         let m = rng.below(16) as u8;
+        (vec![if rng.chance(1, 2) { Stage::Filter(m) } else { Stage::FilterMap(m) }], rng.chance(1, 2))
+    }, &nt));
+    out.merge(rand_adp("C10", p, "c10-rand-backlog", p.n(1_500, 40_000), &backlog(&g), &|rng| {
+        let m = [0u8, 0b0001, 0b1000, 0b0100, 0b0110, 0b1111][rng.below(6)];
         (vec![if rng.chance(1, 2) { Stage::Filter(m) } else { Stage::FilterMap(m) }], rng.chance(1, 2))
     }, &nt));
     out
@@ -505,6 +597,8 @@ pub fn run_c11(p: &Params) -> Outcome {
         drop_pm: 8,
         trav: true,
         init_max: 6,
+        lazy_only: false,
+        far_runs: false,
     };
     out.merge(rand_adp(
         "C11",
@@ -521,6 +615,7 @@ pub fn run_c11(p: &Params) -> Outcome {
     // long histories on small vectors (accumulating state, repeated Resets, many limit changes)
     let glong = AGen { min_ops: 150, max_ops: 400, caps: &[1, 2, 3, 5, 8, 16], ..g.clone() };
     out.merge(rand_adp("C11", p, "c11-rand-long", p.n(1_200, 30_000), &glong, &|rng| (vec![*rng.pick(&[Stage::Sort, Stage::SortBy, Stage::SortByKey])], rng.chance(1, 2)), &nt));
+    out.merge(rand_adp("C11", p, "c11-rand-backlog", p.n(1_500, 40_000), &backlog(&g), &|rng| (vec![*rng.pick(&[Stage::Sort, Stage::SortBy, Stage::SortByKey])], rng.chance(1, 2)), &nt));
     out
 }
 
@@ -598,6 +693,8 @@ pub fn run_c12(p: &Params) -> Outcome {
         drop_pm: 8,
         trav: false,
         init_max: 6,
+        lazy_only: false,
+        far_runs: false,
     };
     out.merge(rand_adp(
         "C12",
@@ -631,6 +728,14 @@ pub fn run_c12(p: &Params) -> Outcome {
     out.merge(rand_adp("C12", p, "c12-rand-large", p.n(6_000, 200_000), &gbig, &|rng| {
         let n = rng.range(2, 3);
         ((0..n).map(|_| gen_stage(rng, ALL_PKS, 60)).collect(), rng.chance(1, 2))
+    }, &nt));
+    out.merge(rand_adp("C12", p, "c12-rand-backlog", p.n(1_500, 40_000), &backlog(&g), &|rng| {
+        let n = rng.range(2, 3);
+        ((0..n).map(|_| gen_stage(rng, ALL_PKS, 5)).collect(), rng.chance(1, 2))
+    }, &nt));
+    out.merge(rand_adp("C12", p, "c12-rand-backlog-far", p.n(1_000, 30_000), &backlog_far(&g), &|rng| {
+        let n = rng.range(2, 3);
+        ((0..n).map(|_| gen_stage(rng, ALL_PKS, 5)).collect(), rng.chance(1, 2))
     }, &nt));
     out
 }
@@ -722,6 +827,8 @@ pub fn run_c13(p: &Params) -> Outcome {
         drop_pm: 8,
         trav: true,
         init_max: 6,
+        lazy_only: false,
+        far_runs: false,
     };
     out.merge(rand_adp(
         "C13",
@@ -735,6 +842,10 @@ pub fn run_c13(p: &Params) -> Outcome {
         },
         &nt,
     ));
+    out.merge(rand_adp("C13", p, "c13-rand-backlog", p.n(1_500, 40_000), &backlog(&g), &|rng| {
+        let n = rng.range(1, 3);
+        ((0..n).map(|_| gen_stage(rng, ALL_PKS, 6)).collect(), true)
+    }, &nt));
     // flavour comparison: fixed parameters, the same history once batched and once unbatched
     let seed = p.seed;
     let gen_name = "c13-flavours";
@@ -847,6 +958,8 @@ pub fn run_c14(p: &Params) -> Outcome {
         drop_pm: 10,
         trav: false,
         init_max: 6,
+        lazy_only: false,
+        far_runs: false,
     };
     out.merge(rand_adp(
         "C14",
@@ -860,6 +973,27 @@ pub fn run_c14(p: &Params) -> Outcome {
         },
         &nt,
     ));
+    // long histories, and big channels with dozens of updates consumed by a single poll
+    let glong = AGen { min_ops: 150, max_ops: 400, caps: &[1, 2, 3, 5, 8, 16], ..g.clone() };
+    out.merge(rand_adp("C14", p, "c14-rand-long", p.n(1_200, 30_000), &glong, &|rng| {
+        let n = rng.range(0, 2);
+        ((0..n).map(|_| gen_stage(rng, ALL_PKS, 6)).collect(), rng.chance(1, 2))
+    }, &nt));
+    out.merge(rand_adp("C14", p, "c14-rand-backlog", p.n(2_000, 50_000), &backlog(&g), &|rng| {
+        let n = rng.range(0, 2);
+        let chain = (0..n)
+            .map(|_| match rng.below(4) {
+                0 => Stage::Filter([0u8, 0b0001, 0b1000, 0b0110][rng.below(4)]),
+                1 => Stage::FilterMap([0u8, 0b0010, 0b0100, 0b1001][rng.below(4)]),
+                _ => gen_stage(rng, ALL_PKS, 3),
+            })
+            .collect();
+        (chain, rng.chance(1, 2))
+    }, &nt));
+    out.merge(rand_adp("C14", p, "c14-rand-backlog-far", p.n(1_500, 40_000), &backlog_far(&g), &|rng| {
+        let n = rng.range(1, 2);
+        ((0..n).map(|_| gen_stage(rng, ALL_PKS, 3)).collect(), rng.chance(1, 2))
+    }, &nt));
     out
 }
 
@@ -903,6 +1037,8 @@ pub fn run_c15(p: &Params) -> Outcome {
         drop_pm: 5,
         trav: true,
         init_max: 6,
+        lazy_only: false,
+        far_runs: false,
     };
     out.merge(rand_adp(
         "C15",
@@ -931,5 +1067,7 @@ pub fn run_c15(p: &Params) -> Outcome {
     // long histories on small vectors (accumulating state, repeated Resets, many limit changes)
     let glong = AGen { min_ops: 150, max_ops: 400, caps: &[1, 2, 3, 5, 8, 16], ..g.clone() };
     out.merge(rand_adp("C15", p, "c15-rand-long", p.n(1_200, 30_000), &glong, &|rng| (vec![gen_lim(rng, &[Kind::Head, Kind::Tail], &[PK::Static], 8)], rng.chance(1, 2)), &nt));
+    out.merge(rand_adp("C15", p, "c15-rand-backlog", p.n(1_500, 40_000), &backlog(&g), &|rng| (vec![gen_lim(rng, &[Kind::Head, Kind::Tail], &[PK::Static, PK::StaticParts], 8)], rng.chance(1, 2)), &nt));
+    out.merge(rand_adp("C15", p, "c15-rand-backlog-far", p.n(1_000, 30_000), &backlog_far(&g), &|rng| (vec![gen_lim(rng, &[Kind::Head, Kind::Tail], &[PK::Static, PK::StaticParts], 5)], rng.chance(1, 2)), &nt));
     out
 }
